@@ -460,7 +460,7 @@ def registry():
                 "instance with opposite settings alive in 30% of runs. 2/2 mutants, 12/12 seeded changes caught.",
                 "Trusted: the model of DESIGN 4.6; single-cycle mode for values."),
         "C03": ("Exploration: ~1.2e5 / ~1.8e6 seeded access histories with injected rejected/torn accesses on write-back and write-through caches of random tiny (and a few "
-                "huge-index) geometries against a byte map, plus ~2.5e4 / 4e5 programs in {single,five} x {cache off,on} and ~6e3 / 1e5 assembler texts through the real parser with the cache off and on. Found D2 (fixed). 4/4 mutants, 12/12 seeded changes caught.",
+                "huge-index) geometries against a byte map, plus ~2.5e4 / 4e5 programs in {single,five} x {cache off,on} and ~6e3 / 1e5 assembler texts through the real parser with the cache off and on. Found D2 (fixed). 2/2 mutants (and the two of C12), 12/12 seeded changes caught.",
                 "Trusted: the byte-map model; white-box reads of resident blocks and memory_file for the 'rejected access changes nothing' clause."),
         "C09": ("Exploration: counters, last-hit flag, residency and cycle delta compared with an independent reference cache after every accepted counted access of ~1e5 / "
                 "~1.5e6 histories; cross-mode counter equality and one-count-per-load/store on ~4e4 / 6e5 programs; assembler preloads and ~3e3 / 5e4 texts in both modes through the real parser. 3/3 mutants, 11/12 seeded changes caught (the twelfth changes residency after a rejected access, which the quantifier excludes).",
